@@ -56,6 +56,11 @@ type c15Inliner struct {
 	curGraph *FG
 	curDecl  *ast.FuncDecl
 	wrap     map[ast.Stmt]string // statements that must get a label
+	// local closures (c15norm3.go)
+	closures bool
+	clFor    *ast.FuncDecl
+	clDefs   map[types.Object]*c15Closure
+	clOfFn   map[*types.Func]*c15Closure
 }
 
 // c15Encl is an enclosing loop / switch / select of the statement being rewritten.
@@ -80,7 +85,92 @@ func c15Normalise(c *Ctx, shorts []string, anchors map[string]bool) {
 
 // c15NormaliseOpt: with propagate == false only helper calls are inlined (no canonicalisation of declarations,
 // no propagation of single-definition locals): the mode used by the global pre-normalisation.
+//
+// Failure handling: the rewritten text is re-type-checked after every round. When it does not type-check (a defect of
+// the inliner, or a construct it does not understand) the syntax trees are half rewritten and cannot be trusted: the
+// program is loaded again from disk, the global pre-pass (if it had run) is repeated, and the normalisation is retried
+// with the function the error was found in left as it is written (c15NormSkip). If that does not help either, the
+// program is analysed un-normalised: the rules then see the helpers as calls and report what they cannot judge
+// themselves. A failed normalisation never fails the load.
 func c15NormaliseOpt(c *Ctx, shorts []string, anchors map[string]bool, propagate bool) {
+	for attempt := 0; ; attempt++ {
+		bad, err := c15NormaliseTry(c, shorts, anchors, propagate)
+		if err == nil {
+			return
+		}
+		retry := bad != "" && !c15NormSkip[bad] && attempt < 4
+		if retry {
+			c15NormSkip[bad] = true
+		}
+		if !c15Reload(c, fmt.Sprintf("normalisation produced code that does not type-check (%v)", err)) {
+			return
+		}
+		if !retry {
+			c.info("normalisation of %s abandoned; the text is analysed as it is written", strings.Join(shorts, ","))
+			return
+		}
+		c.info("normalisation retried with %s left as written", bad)
+	}
+}
+
+// c15NormSkip: functions ("pkg.(*T).name") that no pass rewrites any more in this run (see c15NormaliseOpt).
+var c15NormSkip = map[string]bool{}
+
+// c15GlobalShorts is set by the global pre-pass (gnorm.go) once it has rewritten the program: a reload repeats it.
+var c15GlobalShorts []string
+
+// c15Reload loads the program again from disk and repeats the global pre-pass. false = the program is gone (reported).
+func c15Reload(c *Ctx, why string) bool {
+	p, err := Load(c.P.Repo, c.P.GOOS, loadNeedSSA)
+	if err != nil {
+		c.undecided("LOAD", "normalise", 0, "%s and the program could not be reloaded: %v", why, err)
+		return false
+	}
+	c.P = p
+	installAccessorResolver(p)
+	c.info("%s; the program was loaded again", why)
+	if os.Getenv("VXCHECK_DUMPSRC") != "" {
+		fmt.Printf("RELOAD: %s\n", why)
+	}
+	if len(c15GlobalShorts) > 0 {
+		if _, err := c15NormaliseTry(c, c15GlobalShorts, refFuncNames, false); err != nil {
+			// the global pass fails as well: give it up for the rest of the run
+			c15GlobalShorts = nil
+			p, err := Load(c.P.Repo, c.P.GOOS, loadNeedSSA)
+			if err != nil {
+				c.undecided("LOAD", "normalise", 0, "%s and the program could not be reloaded: %v", why, err)
+				return false
+			}
+			c.P = p
+			installAccessorResolver(p)
+			c.info("global normalisation abandoned (the inlined program did not type-check); the original text is analysed")
+		}
+	}
+	return true
+}
+
+// c15RecheckError is a type error of the rewritten text, with the function it was found in ("" = unknown).
+type c15RecheckError struct {
+	err error
+	fn  string
+}
+
+func (e *c15RecheckError) Error() string { return e.err.Error() }
+
+// c15NormaliseTry is one attempt: on error the syntax trees of c.P are in an undefined state.
+func c15NormaliseTry(c *Ctx, shorts []string, anchors map[string]bool, propagate bool) (badFn string, err error) {
+	defer func() {
+		if r := recover(); r != nil {
+			err = fmt.Errorf("panic in the normaliser: %v", r)
+		}
+	}()
+	fail := func(stage string, e error) (string, error) {
+		fn := ""
+		if re, ok := e.(*c15RecheckError); ok {
+			fn = re.fn
+		}
+		return fn, fmt.Errorf("%s: %v", stage, e)
+	}
 	counter := 0
 	// fresh names are <name>_inl<N>: start above every N an earlier normalisation pass left in the text
 	for _, sh := range shorts {
@@ -114,20 +204,40 @@ func c15NormaliseOpt(c *Ctx, shorts []string, anchors map[string]bool, propagate
 		}
 		if len(changedFiles) > 0 {
 			if err := c15Recheck(c, shorts, changedFiles); err != nil {
-				c.undecided("LOAD", "normalise", 0, "function/method canonicalisation produced code that does not type-check (%v)", err)
-				return
+				return fail("function/method canonicalisation", err)
 			}
 		}
 	}
-	for round := 0; round < 6; round++ {
+	maxRounds := 6
+	if c15InlineClosures {
+		maxRounds = 14 // the C15 run also unrolls table-driven loops and inlines closures: more, smaller steps
+	}
+	for round := 0; round < maxRounds; round++ {
 		changedFiles := map[*packages.Package]map[*ast.File]bool{}
+		if c15InlineClosures {
+			// table-driven loops are unrolled and dead loops dropped first (c15norm4.go): the helper calls in their
+			// bodies then stand at statement level with the row's data as arguments
+			for _, sh := range shorts {
+				if pk := c.P.Pkg(sh); pk != nil {
+					if ch := c15UnrollTables(c, pk); len(ch) > 0 {
+						changedFiles[pk] = ch
+					}
+				}
+			}
+			if len(changedFiles) > 0 {
+				if err := c15Recheck(c, shorts, changedFiles); err != nil {
+					return fail("table unrolling", err)
+				}
+				continue
+			}
+		}
 		for _, sh := range shorts {
 			pk := c.P.Pkg(sh)
 			if pk == nil {
 				continue
 			}
 			in := &c15Inliner{c: c, pk: pk, info: pk.TypesInfo, decls: map[*types.Func]*ast.FuncDecl{}, fileOf: map[*ast.FuncDecl]*ast.File{},
-				counter: &counter, changed: map[*ast.File]bool{}, wrap: map[ast.Stmt]string{}}
+				counter: &counter, changed: map[*ast.File]bool{}, wrap: map[ast.Stmt]string{}, closures: c15InlineClosures, clOfFn: map[*types.Func]*c15Closure{}}
 			in.anchor = func(fd *ast.FuncDecl) bool {
 				return fd.Name.IsExported() || anchors[fd.Name.Name] || fd.Name.Name == "init" || fd.Name.Name == "main"
 			}
@@ -145,13 +255,14 @@ func c15NormaliseOpt(c *Ctx, shorts []string, anchors map[string]bool, propagate
 				in.curFile = f
 				for _, d := range f.Decls {
 					fd, ok := d.(*ast.FuncDecl)
-					if !ok || fd.Body == nil {
+					if !ok || fd.Body == nil || c15NormSkip[sh+"."+funcDeclName(fd)] {
 						continue
 					}
 					in.curFn, _ = pk.TypesInfo.Defs[fd.Name].(*types.Func)
 					in.curGraph = nil
 					in.curDecl = fd
 					fd.Body.List = in.rewriteList(fd.Body.List)
+					in.dropDeadClosures(fd)
 				}
 			}
 			if len(in.changed) > 0 {
@@ -163,13 +274,12 @@ func c15NormaliseOpt(c *Ctx, shorts []string, anchors map[string]bool, propagate
 		}
 		if len(changedFiles) > 0 {
 			if err := c15Recheck(c, shorts, changedFiles); err != nil {
-				c.undecided("LOAD", "normalise", 0, "helper inlining produced code that does not type-check (%v); analysing the original text is no longer possible in this run", err)
-				return
+				return fail("helper inlining", err)
 			}
 			continue // inline again (helpers of helpers) before locals are propagated
 		}
 		if !propagate {
-			return
+			return "", nil
 		}
 		// no call left to inline: substitute single-definition pure locals
 		for _, sh := range shorts {
@@ -182,13 +292,13 @@ func c15NormaliseOpt(c *Ctx, shorts []string, anchors map[string]bool, propagate
 			}
 		}
 		if len(changedFiles) == 0 {
-			return
+			return "", nil
 		}
 		if err := c15Recheck(c, shorts, changedFiles); err != nil {
-			c.undecided("LOAD", "normalise", 0, "local-variable propagation produced code that does not type-check (%v); analysing the original text is no longer possible in this run", err)
-			return
+			return fail("local-variable propagation", err)
 		}
 	}
+	return "", nil
 }
 
 // ---------------------------------------------------------------------------
@@ -410,6 +520,9 @@ type c15Site struct {
 func (in *c15Inliner) callee(call *ast.CallExpr) (*types.Func, *ast.FuncDecl) {
 	fn := calleeOf(in.info, call)
 	if fn == nil {
+		if f, d := in.closureCallee(call); f != nil {
+			return f, d
+		}
 		if os.Getenv("VXCHECK_DUMPSRC") != "" {
 			if id, ok := call.Fun.(*ast.Ident); ok && in.pk.Types.Scope().Lookup(id.Name) != nil {
 				fmt.Printf("callee of %s not resolved (uses=%v)\n", id.Name, in.info.Uses[id])
@@ -777,6 +890,7 @@ func (in *c15Inliner) inline(call *ast.CallExpr, site *c15Site) ([]ast.Stmt, boo
 						body := in.copyBody(fd, subst, rename)
 						out := append(pre, body.List[:len(body.List)-1]...)
 						in.notes = append(in.notes, fmt.Sprintf("%s inlined into %s (result variable unified)", fn.Name(), in.curFn.Name()))
+						in.closureInlined(fn)
 						return out, true
 					}
 				}
@@ -976,6 +1090,7 @@ func (in *c15Inliner) inline(call *ast.CallExpr, site *c15Site) ([]ast.Stmt, boo
 		out = append(out, &ast.LabeledStmt{Label: ast.NewIdent(label), Stmt: sw})
 	}
 	in.notes = append(in.notes, fmt.Sprintf("%s inlined into %s (%s position)", fn.Name(), in.curFn.Name(), site.kind))
+	in.closureInlined(fn)
 	return out, true
 }
 
@@ -984,7 +1099,36 @@ func (in *c15Inliner) copyBody(fd *ast.FuncDecl, subst map[types.Object]ast.Expr
 	if in.origOf == nil {
 		in.origOf = map[ast.Expr]ast.Expr{}
 	}
+	// the symbolic variable of `switch v := x.(type)` has no object of its own (Defs[v] == nil): its uses resolve to
+	// the per-clause implicit objects, which are renamed; the defining identifier must follow them
+	tsDef := map[*ast.Ident]string{}
+	ast.Inspect(fd.Body, func(n ast.Node) bool {
+		ts, ok := n.(*ast.TypeSwitchStmt)
+		if !ok {
+			return true
+		}
+		as, ok := ts.Assign.(*ast.AssignStmt)
+		if !ok || as.Tok != token.DEFINE || len(as.Lhs) != 1 {
+			return true
+		}
+		id, ok := as.Lhs[0].(*ast.Ident)
+		if !ok {
+			return true
+		}
+		for _, cc := range ts.Body.List {
+			if o := in.info.Implicits[cc]; o != nil {
+				if nn, ok := rename[o]; ok {
+					tsDef[id] = nn
+					break
+				}
+			}
+		}
+		return true
+	})
 	return c15Copy(fd.Body, func(id *ast.Ident) ast.Node {
+		if nn, ok := tsDef[id]; ok && os.Getenv("VX_TEST_BREAK_INLINER") == "" { // (test hook: exercises the fallback of c15NormaliseOpt)
+			return ast.NewIdent(nn)
+		}
 		o := in.info.ObjectOf(id)
 		if o == nil {
 			return nil
@@ -1301,7 +1445,17 @@ func c15Recheck(c *Ctx, shorts []string, changed map[*packages.Package]map[*ast.
 		}}
 		tp, _ := conf.Check(pk.PkgPath, c.P.Fset, files, info)
 		if firstErr != nil {
-			return firstErr
+			re := &c15RecheckError{err: firstErr}
+			if te, ok := firstErr.(types.Error); ok {
+				for _, f := range files {
+					for _, d := range f.Decls {
+						if fd, ok := d.(*ast.FuncDecl); ok && fd.Pos() <= te.Pos && te.Pos < fd.End() {
+							re.fn = shortPkg(pk.PkgPath) + "." + funcDeclName(fd)
+						}
+					}
+				}
+			}
+			return re
 		}
 		im.fresh[pk.PkgPath] = tp
 		pk.Syntax, pk.Types, pk.TypesInfo = files, tp, info
@@ -1483,7 +1637,7 @@ func c15PropagateLocals(c *Ctx, pk *packages.Package) map[*ast.File]bool {
 	for _, f := range pk.Syntax {
 		for _, d := range f.Decls {
 			fd, ok := d.(*ast.FuncDecl)
-			if !ok || fd.Body == nil {
+			if !ok || fd.Body == nil || c15NormSkip[shortPkg(pk.PkgPath)+"."+funcDeclName(fd)] {
 				continue
 			}
 			if c15PropagateIn(c, pk, info, f, fd) {
@@ -1644,6 +1798,59 @@ func c15PropagateIn(c *Ctx, pk *packages.Package, info *types.Info, file *ast.Fi
 		}
 		return true
 	})
+	// a struct/array variable that is modified in place after its definition (a field or element is assigned, its
+	// address is taken, a pointer-receiver method is called on it) is not a name for its defining expression
+	{
+		aggregate := func(o types.Object) bool {
+			if o == nil || cands[o] == nil {
+				return false
+			}
+			switch o.Type().Underlying().(type) {
+			case *types.Struct, *types.Array:
+				return true
+			}
+			return false
+		}
+		ast.Inspect(fd.Body, func(n ast.Node) bool {
+			switch t := n.(type) {
+			case *ast.SelectorExpr:
+				if sel := info.Selections[t]; sel != nil && sel.Kind() == types.MethodVal {
+					if fn, ok := sel.Obj().(*types.Func); ok {
+						if sig, ok := fn.Type().(*types.Signature); ok && sig.Recv() != nil {
+							_, wantPtr := sig.Recv().Type().(*types.Pointer)
+							_, havePtr := info.TypeOf(t.X).Underlying().(*types.Pointer)
+							if wantPtr && !havePtr {
+								if o := rootObj(info, t.X); aggregate(o) {
+									delete(cands, o)
+								}
+							}
+						}
+					}
+				}
+			case *ast.AssignStmt:
+				for _, l := range t.Lhs {
+					if _, isID := unparen(l).(*ast.Ident); !isID {
+						if o := rootObj(info, l); aggregate(o) {
+							delete(cands, o)
+						}
+					}
+				}
+			case *ast.IncDecStmt:
+				if _, isID := unparen(t.X).(*ast.Ident); !isID {
+					if o := rootObj(info, t.X); aggregate(o) {
+						delete(cands, o)
+					}
+				}
+			case *ast.UnaryExpr:
+				if t.Op == token.AND {
+					if o := rootObj(info, t.X); aggregate(o) {
+						delete(cands, o)
+					}
+				}
+			}
+			return true
+		})
+	}
 	if len(cands) == 0 {
 		return false
 	}
